@@ -1039,6 +1039,19 @@ class Interp(seq_detached.DetachedMixin, S.SeqRun):
                                  tag=' [bystander, first load]')
                 bystanders = bystanders[:-1]
                 self.probe('partial_first_load_elsewhere')
+        if bystanders and sa.reverse.is_set and Rng(1, 'partial_bm', a, b, c).chance(0.5):
+            # a batch-mate with a pending addition to its own (not loaded) collection: the batch load of the owner's
+            # collection further down merges the stored rows into that collection as well
+            r2 = Rng(2, 'partial_bm', a, b, c)
+            x = bystanders[r2.below(len(bystanders))]
+            have = self.view.partners(sa, x.mid)
+            free = [m.mid for m in self.live_sorted(sa.rel) if m.stored and m.mid not in have and m.mid != x.mid]
+            if have and free:
+                t = free[r2.below(len(free))]
+                self.modify('add %s#%d.%s [#%d]' % (x.ent, x.mid, sa.name, t),
+                            lambda: getattr(self.handle(x.mid), sa.name).add(self.handle(t)),
+                            lambda v: v.coll_add(x.mid, sa, [t]), mids=[x.mid, t])
+                self.probe('partial_bystander_pending_add')
         if r.chance(0.8):
             self.handle_or_poison(o.mid)
         it = ms[0] if r.chance(0.6) else ms[r.below(len(ms))]
